@@ -42,7 +42,7 @@ DialOk   == /\ pc = "top" /\ \E sec \in BOOLEAN :
                  /\ Emit(IF sec THEN "s" ELSE "d", Len(L.conns) + 1)
                  /\ pc' = (IF sec THEN "hs" ELSE "dialled") /\ hs' = (IF sec THEN 1 ELSE 0)
             /\ cur' = Len(L.conns) + 1 /\ UNCHANGED <<redirs, prev, tls>>
-DialFail == pc = "top" /\ Emit("n", 0) /\ pc' = "fail" /\ UNCHANGED <<redirs, cur, prev, tls, hs>>
+DialFail == pc = "top" /\ Emit("n", Len(L.conns) + 1) /\ pc' = "fail" /\ UNCHANGED <<redirs, cur, prev, tls, hs>>
 
 \* the variant: the previous response is only dropped once the next stream exists
 DropPrevLate == /\ pc \in {"dialled", "hs"} /\ prev # 0
